@@ -27,7 +27,7 @@ MAX_RESTARTS = 4          # distinct root causes reported per Hypothesis shard
 MAX_PER_BUCKET = 2
 COLLECT = os.environ.get('VERIF_COLLECT') == '1'      # calibration mode, never used by registered commands
 NO_KNOWN = os.environ.get('VERIF_NO_KNOWN') == '1'
-HANG_S = float(os.environ.get('VERIF_HANG_S', '45'))
+HANG_S = float(os.environ.get('VERIF_HANG_S', '180'))
 SLOT_BYTES = 8192
 
 
